@@ -861,12 +861,16 @@ class Sequence:
         if len(np.intersect1d(selected_events, other_events)) > 0:
             raise RuntimeError('mod_grad_axis does not yet support the same gradient event used on multiple axes.')
 
-        for i in range(len(selected_events)):
-            self.grad_library.data[selected_events[i]][0] *= modifier
-            if self.grad_library.type[selected_events[i]] == 'g' and self.grad_library.lengths[selected_events[i]] == 5:
-                # Need to update first and last fields
-                self.grad_library.data[selected_events[i]][3] *= modifier
-                self.grad_library.data[selected_events[i]][4] *= modifier
+        for grad_id in selected_events:
+            grad_type = self.grad_library.type[grad_id]
+            data = list(self.grad_library.data[grad_id])
+            data[0] *= modifier
+            if grad_type == 'g':
+                # Need to update first and last fields: (amplitude, shape_id, time_id, delay, first, last)
+                data[4] *= modifier
+                data[5] *= modifier
+            self.grad_library.update(grad_id, None, tuple(data), grad_type)
+        self.block_cache.clear()
 
     def plot(
         self,
